@@ -19,7 +19,9 @@ RULE = (
     "reports: NamedQubit.resolve_qubit(); fill_in_map(fill_in_let(c)) (rewrites to the fundamental register's "
     "qubit idx and leaves the meaning unchanged); get_used_qubit_indices; the pyGSTi label; and the emulator - "
     "`prepare_all; X ref; measure_all` puts probability 1 on integer 1 << idx (up to 8 sampled references per case, "
-    "register size <= 8); every register and alias reports the reference size and rejects the index equal to it.  two-level: ALL chains register(n) -> slice -> slice -> index for n <= 4 (quick) / n <= 7 "
+    "register size <= 8); macro calls are also analysed unexpanded (get_used_qubit_indices binds the arguments); with "
+    "a drawn override dictionary the same references are resolved after fill_in_let(c, ov) and must follow the "
+    "overriding values; every register and alias reports the reference size and rejects the index equal to it.  two-level: ALL chains register(n) -> slice -> slice -> index for n <= 4 (quick) / n <= 7 "
     "(thorough) are enumerated exhaustively for resolve_qubit, fill_in_map and used-qubits.  Non-trivial = chain "
     "depth >= 2 or step >= 2 or start >= 1. distinct = program text."
 )
@@ -43,7 +45,8 @@ def _chain_case(ch):
     b = gen.Builder(ch, gen.Cfg(max_lets=4, max_maps=5, max_reg=12, usepulses=False, general_numbers=False))
     prog = empty_prog()
     b.header(prog)
-    return {"prog": prog, "pick": ch.ints(8, 0, 10**6), "np_seed": ch.int(0, 10**6)}
+    env = gen.overrides(ch, prog) if ch.bool() else {}
+    return {"prog": prog, "pick": ch.ints(8, 0, 10**6), "np_seed": ch.int(0, 10**6), "env": env}
 
 
 def _all_refs(prog, ref):
@@ -157,6 +160,41 @@ def chains(case):
         raise Violation("meaning-unresolvable", f"{e}\n--- program:\n{text}")
     if not same_meaning(m0, m1) or not same_meaning(mref, m1):
         raise Violation("fill_in_map-changes-meaning", f"reference {show(mref)}\nbefore {show(m0)}\nafter  {show(m1)}\n--- program:\n{text}")
+    # macro calls analysed WITHOUT expansion (the analysis binds the arguments itself)
+    call_objs = list(c.body.statements)[len(refs) + len(nested) :]
+    for s_obj, s_model, k in zip(call_objs, calls, call_expected):
+        st_, u = guard(get_used_qubit_indices, s_obj, what="get_used_qubit_indices(macro call)")
+        if st_ == "err" or {kk: set(v) for kk, v in dict(u).items() if v} != {regname: {k}}:
+            raise Violation("used-qubits", f"macro call {s_model}: {u}, expected {{{regname!r}: {{{k}}}}}\n--- program:\n{text}", where="macro-call")
+    # the same chain under an override dictionary: every consumer must follow the overriding values
+    env = case.get("env") or {}
+    if env:
+        try:
+            ref_e = Ref(prog, env)
+            refs_e = _all_refs(prog, ref_e)
+            ne = ref_e.reg_size()
+        except Invalid:
+            refs_e = None
+        if refs_e is not None:
+            pe = dict(prog)
+            pe["macros"] = []
+            pe["body"] = [["g", "X", [a]] for a, _k in refs_e]
+            te = render.to_text(pe)
+            st_, ce = guard(parse, te, inject_pulses=nat, what="parse")
+            if st_ == "ok":
+                st_, fe = guard(fill_in_let, ce, dict(env), what="fill_in_let(overrides)")
+                if st_ == "err":
+                    raise Violation("fill-in-let-rejected", f"{fe}\n--- overrides {env}\n--- program:\n{te}")
+                for s, (a, k) in zip(fe.body.statements, refs_e):
+                    rq = _qubit_of(s).resolve_qubit()
+                    if rq[0].name != regname or rq[1] != k:
+                        raise Violation("resolve_qubit", f"under overrides {env}: reference {a} -> {rq[0].name}[{rq[1]}], expected {regname}[{k}]\n--- program:\n{te}", where="override")
+                st_, fm = guard(fill_in_map, fe, what="fill_in_map")
+                if st_ == "ok":
+                    for s, (a, k) in zip(fm.body.statements, refs_e):
+                        q = _qubit_of(s)
+                        if q.alias_from.name != regname or q.alias_index != k:
+                            raise Violation("fill_in_map", f"under overrides {env}: reference {a} rewritten to {q!r}, expected {regname}[{k}]\n--- program:\n{te}", where="override")
     # whole-circuit used set
     st_, u = guard(get_used_qubit_indices, c, what="get_used_qubit_indices(circuit)")
     want_all = set(expected) | set(call_expected)
